@@ -1,3 +1,98 @@
-import GoagModel.Resp
-namespace Goag.Resp
-end Goag.Resp
+import GoagModel.Prim
+/-
+  C09 — the leaf laws behind "client and server agree": what the generated client formats, the
+  generated server parses back to the same value.  For the closed-form leaves (decimal integers
+  of the three widths, booleans) this is proved for EVERY value in range; `Prim.parseIntGo` /
+  `formatIntGo` / `parseBoolGo` / `formatBoolGo` are the models of strconv.ParseInt /
+  FormatInt / ParseBool / FormatBool that the parameter parsers of C04/C05 use, tied to the Go
+  library by the routing corpora (every lexeme of the request corpus, every leaf type).
+  Floats, times, strings through URL escaping and header canonicalisation are library
+  behaviour: validated by the client→server round trips of the check, not proved.
+-/
+namespace Goag.Prim
+
+theorem digitVal_digitChar : ∀ d, d < 10 → digitVal (Nat.digitChar d) = some d := by decide
+
+theorem digitsVal_append (a b : List Char) (acc : Nat) :
+    digitsVal (a ++ b) acc = (digitsVal a acc).bind (digitsVal b) := by
+  induction a generalizing acc with
+  | nil => simp [digitsVal]
+  | cons c cs ih =>
+    simp only [List.cons_append, digitsVal]
+    cases digitVal c with
+    | none => simp
+    | some d => simp [ih]
+
+theorem digitsVal_toDigits (n : Nat) : digitsVal (Nat.toDigits 10 n) 0 = some n := by
+  induction n using Nat.strongRecOn with
+  | _ n ih =>
+    by_cases h : n < 10
+    · rw [Nat.toDigits_of_lt_base h]
+      simp [digitsVal, digitVal_digitChar n h]
+    · have h10 : 10 ≤ n := by omega
+      rw [Nat.toDigits_of_base_le (by decide) h10, digitsVal_append, ih (n / 10) (by omega)]
+      have hm : n % 10 < 10 := Nat.mod_lt _ (by decide)
+      simp only [Option.bind_some, digitsVal, digitVal_digitChar _ hm]
+      congr 1
+      omega
+
+theorem head_digit_not_sign (n : Nat) : ∃ c r, Nat.toDigits 10 n = c :: r ∧ c ≠ '+' ∧ c ≠ '-' := by
+  cases hl : Nat.toDigits 10 n with
+  | nil => exact absurd hl Nat.toDigits_ne_nil
+  | cons c r =>
+    refine ⟨c, r, rfl, ?_, ?_⟩
+    · intro hc
+      have : c.isDigit = true := Nat.isDigit_of_mem_toDigits (b := 10) (n := n) (by decide) (by decide) (by rw [hl]; exact List.mem_cons_self)
+      rw [hc] at this
+      exact absurd this (by decide)
+    · intro hc
+      have : c.isDigit = true := Nat.isDigit_of_mem_toDigits (b := 10) (n := n) (by decide) (by decide) (by rw [hl]; exact List.mem_cons_self)
+      rw [hc] at this
+      exact absurd this (by decide)
+
+theorem splitSign_digit (c : Char) (r : List Char) (hp : c ≠ '+') (hm : c ≠ '-') : splitSign (c :: r) = (false, c :: r) := by
+  unfold splitSign
+  split
+  · rename_i heq; simp only [List.cons.injEq] at heq; exact absurd heq.1 hp
+  · rename_i heq; simp only [List.cons.injEq] at heq; exact absurd heq.1 hm
+  · rfl
+
+theorem splitSign_minus (r : List Char) : splitSign ('-' :: r) = (true, r) := by
+  unfold splitSign; rfl
+
+/-- **Integers.** Whatever in-range value the client formats, the server parses back. -/
+theorem parseInt_formatInt (bits : Nat) (v : Int)
+    (hlo : -(2 ^ ((if bits = 0 then 64 else bits) - 1) : Int) ≤ v)
+    (hhi : v < (2 ^ ((if bits = 0 then 64 else bits) - 1) : Int)) :
+    parseIntGo bits (formatIntGo v) = some v := by
+  unfold parseIntGo formatIntGo natDigits
+  obtain ⟨c, r, hcr, hplus, hminus⟩ := head_digit_not_sign v.natAbs
+  have hval := digitsVal_toDigits v.natAbs
+  have hne : (Nat.toDigits 10 v.natAbs).isEmpty = false := by rw [hcr]; rfl
+  have h2 : ((2 ^ ((if bits = 0 then 64 else bits) - 1) : Nat) : Int) = (2 : Int) ^ ((if bits = 0 then 64 else bits) - 1) := by
+    simp
+  by_cases hneg : v < 0
+  · simp only [hneg, if_true, splitSign_minus, hne, Bool.false_eq_true, if_false, hval]
+    have hb : v.natAbs ≤ 2 ^ ((if bits = 0 then 64 else bits) - 1) := by
+      have : ((v.natAbs : Nat) : Int) = -v := by omega
+      omega
+    simp only [hb, if_true, Option.some.injEq]
+    omega
+  · simp only [hneg, if_false]
+    have hs : splitSign (Nat.toDigits 10 v.natAbs) = (false, Nat.toDigits 10 v.natAbs) := by
+      rw [hcr]; exact splitSign_digit c r hplus hminus
+    simp only [hs, hne, Bool.false_eq_true, if_false, hval]
+    have hb : v.natAbs < 2 ^ ((if bits = 0 then 64 else bits) - 1) := by
+      have : ((v.natAbs : Nat) : Int) = v := by omega
+      omega
+    simp only [hb, if_true, Option.some.injEq]
+    omega
+
+/-- **Booleans.** -/
+theorem parseBool_formatBool (b : Bool) : parseBoolGo (formatBoolGo b) = some b := by
+  cases b <;> decide
+
+example : parseIntGo 32 (formatIntGo (-2147483648)) = some (-2147483648) := by decide
+example : parseIntGo 32 "2147483648".toList = none := by decide
+
+end Goag.Prim
